@@ -1,0 +1,369 @@
+//! C20 facade: the io_uring backend's resource managers and the ZMTP connection handler, driven
+//! from outside the crate on REAL objects:
+//!  * `VSendPool`  - a real `SendBufferPool` registered with a real (private) `IoUring`
+//!  * `VRing`      - a real `ProvidedBufferRing` on a real `IoUring`; the kernel really consumes
+//!                   buffers (receives on a socketpair with IOSQE_BUFFER_SELECT)
+//!  * `VUringHandler` - a real `ZmtpUringHandler` (fd = -1, never submitted to a ring) with a
+//!                   real `ReadyPipeQueue` as the socket's ingress pipe
+//!  * trace points of the worker's close path and accessors for the live worker's buffer pools.
+#![cfg(feature = "io-uring")]
+use crate::io_uring_backend::connection_handler::{
+  HandlerIoOps, HandlerSqeBlueprint, UringConnectionHandler, UringWorkerInterface, WorkerIoConfig,
+};
+use crate::io_uring_backend::ops::WAKEUP_STATE_ACTIVE;
+use crate::io_uring_backend::provided_buffer_ring::{self, ProvidedBufferRing};
+use crate::io_uring_backend::send_buffer_pool::{self, RegisteredSendBufferId, SendBufferLease, SendBufferPool};
+use crate::io_uring_backend::zmtp_handler::{self, ZmtpUringHandler};
+use crate::message::FrameBatch;
+use crate::runtime::Command;
+use crate::socket::connection_iface::DummyConnection;
+use crate::socket::patterns::ready_pipe_queue::PipeMessageSender;
+use crate::socket::patterns::ReadyPipeQueue;
+use crate::verif::engine::{new_engine, VEngineConfig};
+use crate::ZmqError;
+use bytes::Bytes;
+use io_uring::{cqueue, opcode, squeue, types, IoUring};
+use parking_lot::Mutex;
+use std::os::unix::io::RawFd;
+use std::sync::atomic::{AtomicBool, AtomicU8, Ordering};
+use std::sync::Arc;
+
+// ------------------------------------------------------------------ trace points (worker close path)
+
+static TRACE_ON: AtomicBool = AtomicBool::new(false);
+static TRACE: Mutex<Vec<(u8, i64, i64)>> = Mutex::new(Vec::new());
+
+/// kinds: 0 = RegisterExternalZmtpFd(fd), 1 = Close SQE queued(fd), 2 = CloseFd CQE(fd, result)
+pub fn trace(kind: u8, a: i64, b: i64) {
+  if TRACE_ON.load(Ordering::Relaxed) {
+    TRACE.lock().push((kind, a, b));
+  }
+}
+pub fn trace_enable(on: bool) {
+  TRACE_ON.store(on, Ordering::SeqCst);
+}
+pub fn trace_take() -> Vec<(u8, i64, i64)> {
+  std::mem::take(&mut *TRACE.lock())
+}
+
+/// (free, max_pooled, live chunks) of the recycling pool of every provided-buffer ring alive
+pub fn live_recv_pools() -> Vec<(usize, usize, usize)> {
+  provided_buffer_ring::verif_access::live_pools()
+}
+
+/// (free ids, in_kernel_use flags) of the global worker's send pool, if zero-copy is configured
+pub fn live_send_pool() -> Option<(Vec<u16>, Vec<bool>)> {
+  let tx = crate::uring::global_state::get_global_uring_worker_op_tx().ok()?;
+  let pool = tx.clone_send_buffer_pool()?;
+  Some(send_buffer_pool::verif_access::snapshot(&pool))
+}
+
+// ------------------------------------------------------------------ send buffer pool
+
+pub struct VSendPool {
+  pool: Arc<SendBufferPool>,
+  leases: Vec<Option<SendBufferLease>>,
+  _ring: IoUring,
+}
+
+impl VSendPool {
+  pub fn new(count: usize, cap: usize) -> Result<Self, String> {
+    let ring = IoUring::new(8).map_err(|e| format!("io_uring: {e}"))?;
+    let pool = SendBufferPool::new(&ring, count, cap).map_err(|e| format!("pool: {e}"))?;
+    Ok(Self { pool: Arc::new(pool), leases: Vec::new(), _ring: ring })
+  }
+  /// acquire_and_prep_buffer with `len` bytes of data; returns the buffer id
+  pub fn acquire(&self, len: usize) -> Option<u16> {
+    let data = Bytes::from(vec![0xA5u8; len]);
+    self.pool.acquire_and_prep_buffer(&data).map(|(id, _, _)| id.0)
+  }
+  /// acquire_lease; returns (lease handle, buffer id)
+  pub fn lease(&mut self) -> Option<(usize, u16)> {
+    let l = self.pool.acquire_lease()?;
+    let id = l.id.0;
+    self.leases.push(Some(l));
+    Some((self.leases.len() - 1, id))
+  }
+  /// the worker took ownership: released_to_worker := true
+  pub fn hand_over(&mut self, h: usize) -> Option<u16> {
+    let l = self.leases.get(h)?.as_ref()?;
+    l.released_to_worker.store(true, Ordering::Release);
+    Some(l.id.0)
+  }
+  /// Drop for SendBufferLease; returns (id, released_to_worker at the time of the drop)
+  pub fn drop_lease(&mut self, h: usize) -> Option<(u16, bool)> {
+    let l = self.leases.get_mut(h)?.take()?;
+    let r = (l.id.0, l.released_to_worker.load(Ordering::Acquire));
+    drop(l);
+    Some(r)
+  }
+  pub fn release(&self, id: u16) {
+    self.pool.release_buffer(RegisteredSendBufferId(id));
+  }
+  pub fn snapshot(&self) -> (Vec<u16>, Vec<bool>) {
+    send_buffer_pool::verif_access::snapshot(&self.pool)
+  }
+}
+
+// ------------------------------------------------------------------ provided buffer ring
+
+pub struct VRingSnap {
+  pub slots: Vec<Option<usize>>,
+  pub tail: u16,
+  pub free: Vec<usize>,
+  pub max_pooled: usize,
+  pub entry_count: u16,
+}
+
+pub struct VRing {
+  pbr: Option<ProvidedBufferRing>,
+  chunks: Vec<Option<Bytes>>,
+  ring: IoUring,
+  rd: RawFd,
+  wr: RawFd,
+  bgid: u16,
+  cap: usize,
+  next_ud: u64,
+}
+
+impl VRing {
+  pub fn new(requested: u16, cap: usize) -> Result<Self, String> {
+    let ring = IoUring::new(8).map_err(|e| format!("io_uring: {e}"))?;
+    let bgid = 5;
+    let pbr = ProvidedBufferRing::new(&ring, requested, bgid, cap).map_err(|e| format!("ring: {e}"))?;
+    let mut fds = [0 as RawFd; 2];
+    let rc = unsafe { libc::socketpair(libc::AF_UNIX, libc::SOCK_STREAM, 0, fds.as_mut_ptr()) };
+    if rc != 0 {
+      return Err("socketpair".into());
+    }
+    Ok(Self { pbr: Some(pbr), chunks: Vec::new(), ring, rd: fds[1], wr: fds[0], bgid, cap, next_ud: 1 })
+  }
+  fn pbr(&self) -> &ProvidedBufferRing {
+    self.pbr.as_ref().unwrap()
+  }
+  /// The kernel consumes one provided buffer: `n` bytes (n >= 1) are written to a socketpair
+  /// and received with IOSQE_BUFFER_SELECT. Returns Ok((bid, len)) or Err(errno).
+  pub fn kernel_recv(&mut self, n: usize, fill: u8) -> Result<(u16, usize), i32> {
+    let payload = vec![fill; n.max(1).min(self.cap)];
+    let w = unsafe { libc::write(self.wr, payload.as_ptr() as *const libc::c_void, payload.len()) };
+    if w != payload.len() as isize {
+      return Err(-1);
+    }
+    let ud = self.next_ud;
+    self.next_ud += 1;
+    let sqe = opcode::Recv::new(types::Fd(self.rd), std::ptr::null_mut(), self.cap as u32)
+      .buf_group(self.bgid)
+      .build()
+      .flags(squeue::Flags::BUFFER_SELECT)
+      .user_data(ud);
+    unsafe { self.ring.submission().push(&sqe).map_err(|_| -2)? };
+    self.ring.submit_and_wait(1).map_err(|_| -3)?;
+    let cqe = self.ring.completion().next().ok_or(-4)?;
+    if cqe.result() < 0 {
+      // drain the unread bytes so the next receive starts clean
+      let mut sink = vec![0u8; payload.len()];
+      unsafe { libc::recv(self.rd, sink.as_mut_ptr() as *mut libc::c_void, sink.len(), libc::MSG_DONTWAIT) };
+      return Err(-cqe.result());
+    }
+    let bid = cqueue::buffer_select(cqe.flags()).ok_or(-5)?;
+    Ok((bid, cqe.result() as usize))
+  }
+  /// take(bid, filled): Ok((chunk handle, buffer address, bytes exposed, first byte)) or Err
+  pub fn take(&mut self, bid: u16, filled: usize) -> Result<(usize, usize, usize, u8), String> {
+    let b = self.pbr().take(bid, filled).map_err(|e| e.to_string())?;
+    let r = (self.chunks.len(), b.as_ptr() as usize, b.len(), b.first().copied().unwrap_or(0));
+    self.chunks.push(Some(b));
+    Ok(r)
+  }
+  pub fn reprovide(&mut self, bid: u16) -> bool {
+    self.pbr().reprovide(bid).is_ok()
+  }
+  /// drop the last reference to a chunk (a sliced clone is dropped first, as a parsed Msg would)
+  pub fn drop_chunk(&mut self, h: usize) -> bool {
+    match self.chunks.get_mut(h).and_then(|c| c.take()) {
+      Some(b) => {
+        let s = if b.len() > 1 { Some(b.slice(1..)) } else { None };
+        drop(b);
+        drop(s);
+        true
+      }
+      None => false,
+    }
+  }
+  pub fn snapshot(&self) -> VRingSnap {
+    let s = provided_buffer_ring::verif_access::snapshot(self.pbr());
+    VRingSnap { slots: s.slots, tail: s.tail, free: s.free, max_pooled: s.max_pooled, entry_count: s.entry_count }
+  }
+}
+
+impl Drop for VRing {
+  fn drop(&mut self) {
+    self.chunks.clear();
+    if let Some(p) = self.pbr.take() {
+      p.unregister(&self.ring);
+      drop(p);
+    }
+    unsafe {
+      libc::close(self.rd);
+      libc::close(self.wr);
+    }
+  }
+}
+
+// ------------------------------------------------------------------ the ZMTP handler
+
+/// What one handler call asked the worker to do.
+#[derive(Debug, Default, Clone)]
+pub struct VOps {
+  pub sends: Vec<Vec<u8>>,
+  pub zc_sends: usize,
+  pub cork: Vec<bool>,
+  pub close_requests: usize,
+  pub error_close: bool,
+  pub other: usize,
+}
+
+fn summarize(ops: HandlerIoOps) -> VOps {
+  let mut v = VOps::default();
+  v.error_close = ops.initiate_close_due_to_error;
+  for bp in ops.sqe_blueprints {
+    match bp {
+      HandlerSqeBlueprint::RequestSend { data, .. } => v.sends.push(data.to_vec()),
+      HandlerSqeBlueprint::RequestSendZeroCopy { data_to_send, .. } => {
+        v.zc_sends += 1;
+        v.sends.push(data_to_send.to_vec())
+      }
+      HandlerSqeBlueprint::RequestSendRawVectored { bufs, .. } => {
+        v.sends.push(bufs.iter().flat_map(|b| b.iter().copied()).collect())
+      }
+      HandlerSqeBlueprint::RequestSetCork(b) => v.cork.push(b),
+      HandlerSqeBlueprint::RequestClose => v.close_requests += 1,
+      _ => v.other += 1,
+    }
+  }
+  v
+}
+
+/// control messages the handler sent to its SocketCore mailbox
+#[derive(Debug, Clone)]
+pub enum VCtrl {
+  Established { peer_identity: Option<Vec<u8>> },
+  FdError(ZmqError),
+}
+
+pub struct VUringHandler {
+  h: ZmtpUringHandler,
+  cfg: Arc<WorkerIoConfig>,
+  q: Arc<ReadyPipeQueue<FrameBatch>>,
+  pending_sender: Option<PipeMessageSender>,
+  mailbox_rx: fibre::mpsc::BoundedReceiver<Command>,
+  _egress_tx: fibre::mpsc::BoundedSender<FrameBatch>,
+}
+
+impl VUringHandler {
+  pub fn new(is_server: bool, ecfg: &VEngineConfig, pipe_capacity: usize, multishot: bool) -> Self {
+    let (mtx, mrx) = fibre::mpsc::bounded::<Command>(256);
+    let cfg = Arc::new(WorkerIoConfig {
+      socket_mailbox: mtx,
+      endpoint_uri: "tcp://verif-peer".into(),
+      target_endpoint_uri: "tcp://verif-target".into(),
+      connection_iface: Arc::new(DummyConnection),
+    });
+    let (etx, erx) = fibre::mpsc::bounded::<FrameBatch>(16);
+    let efd = eventfd::EventFD::new(0, eventfd::EfdFlags::EFD_CLOEXEC | eventfd::EfdFlags::EFD_NONBLOCK).expect("eventfd");
+    let asleep = Arc::new(AtomicU8::new(WAKEUP_STATE_ACTIVE));
+    let engine = new_engine(is_server, ecfg);
+    let h = ZmtpUringHandler::new(-1, cfg.clone(), engine, Arc::new(erx), false, multishot, 0, efd, asleep);
+    let q = Arc::new(ReadyPipeQueue::<FrameBatch>::new(4));
+    let sender = PipeMessageSender::DirectAnonymous(q.register_pipe(0, pipe_capacity, 0));
+    Self { h, cfg, q, pending_sender: Some(sender), mailbox_rx: mrx, _egress_tx: etx }
+  }
+  fn iface(&self, write_completion: bool) -> UringWorkerInterface<'_> {
+    UringWorkerInterface::new(-1, &self.cfg, None, None, 0, 0, write_completion, 8)
+  }
+  pub fn start(&mut self) -> VOps {
+    let cfg = self.cfg.clone();
+    let i = UringWorkerInterface::new(-1, &cfg, None, None, 0, 0, false, 8);
+    summarize(self.h.connection_ready(&i))
+  }
+  /// process_ring_read_bytes (an empty slice is the EOF sentinel)
+  pub fn read(&mut self, data: &[u8]) -> VOps {
+    let cfg = self.cfg.clone();
+    let i = UringWorkerInterface::new(-1, &cfg, None, None, 0, 0, false, 8);
+    summarize(self.h.process_ring_read_bytes(Bytes::copy_from_slice(data), &i))
+  }
+  /// apply_engine_output with one DeliverMessage (the delivery path in isolation)
+  pub fn deliver(&mut self, batch: FrameBatch) -> VOps {
+    summarize(zmtp_handler::verif_access::deliver(&mut self.h, batch))
+  }
+  pub fn drain(&mut self) {
+    zmtp_handler::verif_access::drain(&mut self.h)
+  }
+  pub fn attach(&mut self) -> bool {
+    match self.pending_sender.take() {
+      Some(s) => {
+        self.h.attach_ingress(s);
+        true
+      }
+      None => false,
+    }
+  }
+  pub fn resume(&mut self) {
+    self.h.resume_ingress()
+  }
+  pub fn prepare(&mut self) -> VOps {
+    let cfg = self.cfg.clone();
+    let i = UringWorkerInterface::new(-1, &cfg, None, None, 0, 0, false, 8);
+    summarize(self.h.prepare_sqes(&i))
+  }
+  pub fn throttle(&self) -> bool {
+    self.h.should_throttle_reads()
+  }
+  pub fn close_initiated(&mut self) -> VOps {
+    let cfg = self.cfg.clone();
+    let i = UringWorkerInterface::new(-1, &cfg, None, None, 0, 0, false, 8);
+    summarize(self.h.close_initiated(&i))
+  }
+  /// handle_internal_sqe_completion with a negative result (read / setsockopt failure)
+  pub fn io_error(&mut self, errno: i32) -> VOps {
+    let cfg = self.cfg.clone();
+    let i = UringWorkerInterface::new(-1, &cfg, None, None, 0, 0, false, 8);
+    summarize(self.h.handle_internal_sqe_completion(0, -errno, 0, &i))
+  }
+  pub fn fd_has_been_closed(&mut self) {
+    self.h.fd_has_been_closed()
+  }
+  /// the application takes one message from the socket's queue
+  pub fn pop(&self) -> Option<FrameBatch> {
+    self.q.try_pop().map(|(_, b)| b)
+  }
+  /// the socket drops the receiving side of the pipe
+  pub fn drop_receiver(&self) {
+    self.q.deregister_pipe(0);
+  }
+  /// (spillover length, is_throttled, is_closing, close_deadline armed, sender attached)
+  pub fn flags(&self) -> (usize, bool, bool, bool, bool) {
+    zmtp_handler::verif_access::flags(&self.h)
+  }
+  pub fn has_drainable_spillover(&self) -> bool {
+    self.h.has_drainable_spillover()
+  }
+  pub fn mailbox_drain(&self) -> Vec<VCtrl> {
+    let mut out = Vec::new();
+    while let Ok(c) = self.mailbox_rx.try_recv() {
+      match c {
+        Command::UringConnectionEstablished { peer_identity, .. } => {
+          out.push(VCtrl::Established { peer_identity: peer_identity.map(|b| b.to_vec()) })
+        }
+        Command::UringFdError { error, .. } => out.push(VCtrl::FdError(error)),
+        _ => {}
+      }
+    }
+    out
+  }
+}
+
+#[allow(dead_code)]
+fn _unused(i: &VUringHandler) {
+  let _ = i.iface(false);
+}
